@@ -36,6 +36,7 @@ def run(ctx):
     ctx.rule(logfloor)
     ctx.rule(power)
     ctx.rule(_default_window)
+    ctx.rule(_fresh_buffers)
     ctx.rule(si_finalize, "R-C03-frame-count")
 
 
@@ -298,3 +299,10 @@ def logfloor(ctx, R="R-C03-logfloor"):
 def _default_window(ctx, R="R-C03-default-window"):
     from .c02 import default_window
     default_window(ctx, R, cls="compute.ShortIntegrationFrameComputer", attr="self._window")
+
+
+def _fresh_buffers(ctx, R="R-C03-fresh-buffers"):
+    """every coefficient is computed from the current signal only: the sample and accumulator buffers (and the counters
+    that index them) are re-initialised on every path between two utterances (rule shared with C04)"""
+    from .c04 import reset
+    reset(ctx, _si(ctx.prog), R)
